@@ -85,7 +85,10 @@ Definition k_float (b : N) : list N := (1 :: 102 :: be64 (fnorm b))%N.       (* 
 Definition k_str (s : str) : list N := (1 :: 115 :: lp s)%N.                 (* types.go:569 stringKey *)
 Definition k_regexp (s : str) : list N := (1 :: 114 :: lp s)%N.              (* regexptype.go:262 *)
 Definition k_binary (s : str) : list N := (0 :: 66 :: lp s)%N.               (* binarytype.go:258 *)
-Definition k_timespan (z : Z) : list N := (1 :: 68 :: be64 (u64 z))%N.       (* timespantype.go:490 *)
+(* timespantype.go:441 Timespan.Int() = whole seconds (nanoseconds / 1e9, truncated): both ToKey and
+   Equals use it, so Timespans that differ by less than a second are equal and have one key *)
+Definition tspan_secs (z : Z) : Z := Z.quot z 1000000000.
+Definition k_timespan (z : Z) : list N := (1 :: 68 :: be64 (u64 (tspan_secs z)))%N. (* timespantype.go:490 *)
 Definition k_timestamp (s ns : Z) : list N := (1 :: 84 :: be64 (u64 s) ++ be64 (u64 ns))%N. (* timestamptype.go:403 *)
 (* a sequence of keys, terminated by HkEnd: Array 'A' = 65 (arraytype.go:606), HashEntry writes the
    key of [key, value] (hashtype.go:577), Hash 'H' = 72 (hashtype.go:1212) *)
@@ -220,8 +223,8 @@ Fixpoint tparams (t : ty) : list (list N) :=
   | TUn u x =>                                                     (* optionaltype.go:111 notundeftype.go:111 typetype.go:124 ... *)
       if is_any x then []
       else match u, x with
-           | UOptional, TStringVal (_ :: _ as s) => [k_str s]
-           | UNotUndef, TStringVal (_ :: _ as s) => [k_str s]
+           | UOptional, TStringVal ((_ :: _) as s) => [k_str s]
+           | UNotUndef, TStringVal ((_ :: _) as s) => [k_str s]
            | _, _ => [k_type (tname x) (tparams x)]
            end
   end.
@@ -399,7 +402,7 @@ Fixpoint veq (x y : value) {struct x} : bool :=
   | VStr s => match y with VStr s' => str_eqb s s' | _ => false end
   | VRegexp s => match y with VRegexp s' => str_eqb s s' | _ => false end
   | VBinary s => match y with VBinary s' => str_eqb s s' | _ => false end
-  | VTimespan z => match y with VTimespan w => z =? w | _ => false end
+  | VTimespan z => match y with VTimespan w => tspan_secs z =? tspan_secs w | _ => false end  (* timespantype.go:424 *)
   | VTimestamp s ns => match y with VTimestamp s' ns' => (s =? s') && (ns =? ns') | _ => false end
   | VArr vs =>                                                     (* arraytype.go:455 *)
       match y with
@@ -537,3 +540,15 @@ Fixpoint uniq (seen : list (list N)) (vs : list value) : list value :=
   | v :: vs' => if existsb (str_eqb (vkey v)) seen then uniq seen vs' else v :: uniq (vkey v :: seen) vs'
   end.
 Definition unique (vs : list value) : list value := uniq [] vs.
+
+(* ------------------------------------------------------------------------------------------ *)
+(* Open finding object-type-key-by-identity (known_findings/C07.json): Object types are outside the
+   universe above; this is the fragment of types/objecttype.go that the finding is about.
+   objecttype.go:151  hashKey = "\x00tObject" + decimal text of a counter incremented per created type;
+   objecttype.go:239  Equals compares name, parent, attributes, ... structurally (here: name and the
+   attribute names and types). *)
+Record objty := { ot_counter : str; ot_name : str; ot_attrs : list (str * ty) }.
+Definition objty_key (t : objty) : list N := (0 :: 116 :: bytes_of "Object" ++ ot_counter t)%N.
+Definition objty_eqb (a b : objty) : bool :=
+  str_eqb (ot_name a) (ot_name b)
+  && list_eqb (fun x y => str_eqb (fst x) (fst y) && ty_eqb (snd x) (snd y)) (ot_attrs a) (ot_attrs b).
